@@ -489,7 +489,9 @@ def run(tier, seed):
                         if stats["model_disagreements"] <= 5:
                             v.tie_failure("correspondence literal: %s %s impl=%s model=%s" % (case, f, impl_f.get(f), model_f.get(f)))
                         break
-                if spec == "MISMATCH" or (spec != "-" and exp is not None and "name" not in exp and spec != exp["D"]) \
+                if spec == "OUT" and exp is not None and (exp["D"] == "Err" or exp["D"].startswith("F:")):
+                    pass        # the spec says: the digits' value does not fit an i32
+                elif spec == "MISMATCH" or (spec != "-" and exp is not None and "name" not in exp and spec != exp["D"]) \
                         or (spec != "-" and exp is not None and "name" in exp and spec != "M:" + cps(exp["name"])):
                     stats["spec_mismatch"] += 1
                     if stats["spec_mismatch"] <= 3:
